@@ -37,7 +37,7 @@ ANCHORS = [
     "acnportal.acnsim.network.charging_network:ChargingNetwork._update_info_store",
     "acnportal.acnsim.interface:Interface.allowable_pilot_signals",
 ]
-REQUIRED = ["set_pilot_judged", "accepted", "rejected", "regime:EVSE", "regime:DeadbandEVSE", "regime:FiniteRatesEVSE",
+REQUIRED = ["set_pilot_judged", "finite_rate_stations_re_rated_through_the_public_attribute", "batches_with_one_invalid_pilot", "accepted", "rejected", "regime:EVSE", "regime:DeadbandEVSE", "regime:FiniteRatesEVSE",
             "rejected_with_ev_state_checked", "advert_with_session_ids_spelled_like_other_stations", "non_finite_pilots_judged", "pilots_of_magnitude_over_1e5_judged", "pilot_equals_current", "pilot_exact_zero", "pilot_repeated", "replug_between_pilots",
             "advertised_values_applied", "suite:set_pilot_judged", "advertised_after_json", "plugin_occupied_refused", "plugin_occupied_same_session_id_refused", "network_plugin_on_occupied:satisfied_occupant", "network_plugin_occupied_refused"]
 BUDGET_S = {"quick": 200, "thorough": 2400}
@@ -199,6 +199,8 @@ def cases(seed, tier):
         out.append({"kind": "direct", "evse": e, "with_ev": rng.random() < 0.5, "n": 60, "seed": rng.randrange(1 << 30)})
     for i in range(nn):
         out.append({"kind": "advert", "seed": rng.randrange(1 << 30)})
+    for i in range(nn):
+        out.append({"kind": "batch", "seed": rng.randrange(1 << 30)})
     out.append({"kind": "suite"})  # the repository's own tests as one more workload under the same monitor
     return out
 
@@ -292,6 +294,21 @@ def _run_direct(case, obs):
             if rng.random() < 0.7:
                 evse.plugin(car)
             obs.ev("replug_between_pilots")
+        if e["t"] == "FR" and not e.get("user") and rng.random() < 0.02:
+            # the charger is re-rated in the middle of a study through the documented public attribute (a list of rates in
+            # increasing order that includes 0): from now on the new list decides what is accepted and what is advertised
+            _ = (evse.max_rate, evse.min_rate, list(evse.allowable_pilot_signals))  # (the limits had been read before the edit)
+            new_rates = sorted(set(rng.choice([[8, 16], [6, 12, 18, 24], [10], [48, 64], [round(rng.uniform(1, 60), 1) for _k in range(3)]])) | {0})
+            evse.allowable_rates = list(new_rates)
+            e = dict(e, rates=list(new_rates), form="list")
+            CUR["desc"] = e
+            bs = _boundaries(e)
+            obs.ev("finite_rate_stations_re_rated_through_the_public_attribute")
+            for src_, v_ in [("evse.max_rate after re-rating", evse.max_rate), ("evse.min_rate after re-rating", evse.min_rate)] + \
+                    [("evse.allowable_pilot_signals after re-rating", x_) for x_ in evse.allowable_pilot_signals]:
+                _apply(obs, evse, v_, src_, None)
+            if float(evse.max_rate) != float(max(new_rates)):
+                obs.violate("station_limit_not_truthful", f"re-rated to {new_rates}: max_rate reports {evse.max_rate!r}", evse=e)
         last = p
         if rng.random() < 0.03:
             p = rng.choice([math.nan, math.nan, math.inf, -math.inf])  # what 0/0 or x/0 in a sharing rule hands to a station
@@ -332,6 +349,79 @@ def _apply(obs, evse, value, src, nd):
     except InvalidRateError:
         obs.violate("advertised_value_rejected", f"{src} advertises {v!r} for station {evse.station_id} but set_pilot rejects it",
                     source=src, value=v, evse=_desc_of(evse))
+
+
+def _run_batch(case, obs):
+    """A rejection in the middle of a batch: ChargingNetwork.update_pilots over several stations, one of which is sent a pilot
+    outside its allowable set.  The call raises the invalid-rate error; the rejecting station still holds the pilot it held, and
+    its car's energy and battery are what they were (the clause on rejected pilots, reached through the network's own loop)."""
+    from acnportal.acnsim.models import InvalidRateError, EV, Battery
+    rng = random.Random(case["seed"])
+    n = rng.randint(2, 6)
+    stations = [{"id": f"s{i}", "evse": _rand_evse(rng), "voltage": rng.choice([208, 240]), "phase": 0} for i in range(n)]
+    for st_ in stations:
+        st_["evse"].pop("user", None)
+        if st_["evse"]["t"] == "FR":
+            st_["evse"]["form"] = "list"
+    net = build.build_network({"stations": stations, "constraints": [], "tol": None})
+    evses = dict(build.LAST_EVSES)
+    cars = {}
+    for st_ in stations:
+        if rng.random() < 0.8:
+            cars[st_["id"]] = EV(0, 50, 40.0, st_["id"], "c-" + st_["id"], Battery(80, 0, 11))
+            net.plugin(cars[st_["id"]])
+
+    def valid(e):
+        if e["t"] == "EVSE":
+            hi = e["max"] if e["max"] != float("inf") else 64.0
+            return rng.choice([e["min"], hi, (e["min"] + hi) / 2.0])
+        if e["t"] == "DB":
+            hi = e["max"] if e["max"] != float("inf") else 64.0
+            return rng.choice([0, e["end"], hi, (e["end"] + hi) / 2.0])
+        return rng.choice(sorted(set(e["rates"]) | {0}))
+
+    def invalid(e):
+        if e["t"] == "EVSE":
+            return (e["max"] + 5) if e["max"] != float("inf") else (e["min"] - 5)
+        if e["t"] == "DB":
+            return e["end"] / 2.0
+        rs = sorted(set(float(r_) for r_ in e["rates"]) | {0.0})
+        return max(rs) + 7.0
+
+    ids = list(net.station_ids)
+    for t in range(rng.randint(1, 4)):
+        # first some fully valid periods ...
+        col = np.array([[float(valid(next(s_["evse"] for s_ in stations if s_["id"] == i_)))] for i_ in ids])
+        net.update_pilots(col, 0, 5)
+    k = rng.randrange(n)
+    before = {i_: (evses[i_].current_pilot, None if i_ not in cars else cars[i_].energy_delivered,
+                   None if i_ not in cars else json.dumps(ev_battery_json(cars[i_]), sort_keys=True)) for i_ in ids}
+    col = np.array([[float(valid(next(s_["evse"] for s_ in stations if s_["id"] == i_)))] for i_ in ids])
+    bad_e = next(s_["evse"] for s_ in stations if s_["id"] == ids[k])
+    col[k, 0] = float(invalid(bad_e))
+    ok_, dist_ = oracles.evse_accepts(bad_e, float(col[k, 0]))
+    if ok_ or dist_ < F(1, 10 ** 6):
+        obs.ev("batch_case_without_a_clearly_invalid_pilot_not_judged")
+        return
+    obs.ev("batches_with_one_invalid_pilot")
+    obs.evals = 1
+    wit = dict(stations=stations, rejecting=ids[k], position=k, pilots=[float(x) for x in col[:, 0]])
+    try:
+        net.update_pilots(col, 0, 5)
+        obs.violate("acceptance_mismatch", f"update_pilots accepted {float(col[k, 0])!r} for station {ids[k]} ({bad_e})", **wit)
+        return
+    except InvalidRateError:
+        pass
+    except Exception as e_:
+        obs.ev("batch_refused_with_other_error:" + type(e_).__name__)
+    now = (evses[ids[k]].current_pilot, None if ids[k] not in cars else cars[ids[k]].energy_delivered,
+           None if ids[k] not in cars else json.dumps(ev_battery_json(cars[ids[k]]), sort_keys=True))
+    if now != before[ids[k]]:
+        what = [n_ for n_, a_, b_ in zip(["pilot", "energy", "battery"], before[ids[k]], now) if a_ != b_]
+        obs.violate("rejection_changed_state", f"update_pilots: station {ids[k]} (position {k} of {n}) rejected {float(col[k, 0])!r}; its {what} changed: "
+                    f"{before[ids[k]][:2]} -> {now[:2]}", **wit)
+    obs.nontrivial()
+    obs.sample = {"kind": "batch", "stations": n, "rejecting_position": k}
 
 
 def _run_advert(case, obs):
@@ -433,6 +523,8 @@ def run_case(case, obs):
             simrun.run_repo_suite_monitored("C13", obs)
             obs.evals = max(1, obs.events.get("suite:set_pilot_judged", 0))
             obs.sample = {"kind": "suite", "set_pilot_judged": obs.events.get("suite:set_pilot_judged", 0)}
+        elif case["kind"] == "batch":
+            _run_batch(case, obs)
         else:
             _run_advert(case, obs)
     finally:
